@@ -105,7 +105,7 @@ def run(ctx, coq_ok):
             ctx.violation("selection-differs", "rules that run differ from (selection minus exclusion)",
                           {"input": {"rules": allow, "exclude_rules": deny}, "got": got, "want": want})
     # only selected rules report; rule alone == rule among all
-    fixtures = sorted(glob.glob("/repo/test/fixtures/dialects/ansi/*.sql"))
+    fixtures = sorted(glob.glob(os.environ.get("VERIF_REPO", "/repo") + "/test/fixtures/dialects/ansi/*.sql"))
     ctx.rng.shuffle(fixtures)
     fx = fixtures[: (6 if ctx.tier == "quick" else 40)]
     sample_rules = ["LT01", "CP01", "AL01", "RF02", "ST06", "LT02", "AM04", "CV03", "LT09", "RF04"] if ctx.tier == "quick" else codes
